@@ -488,12 +488,9 @@ def _build_evaluator_iterative(
                 result_stack.append(lambda x, f=operand_fn, np_f=numpy_func: np_f(f(x)))
             continue
 
-        # Unknown type - try to evaluate directly
-        raise InvalidExpressionError(
-            expr_type=type(node),
-            context="iterative expression compilation",
-            suggestion="Use Variable, Constant, BinaryOp, or UnaryOp expressions.",
-        )
+        # Any other node kind (vectorised sums and powers, ...) is not deep itself:
+        # compile it with the recursive builder, which raises for unknown types.
+        result_stack.append(_build_evaluator(node, var_indices))
 
     if not result_stack:
         raise InvalidExpressionError(
